@@ -86,6 +86,7 @@ func (f *File) Apply(filename string, src []byte) (_ []byte, err error) {
 	}
 
 	var out bytes.Buffer
+	engine.Parenthesize(fout)
 	err = format.Node(&out, f.fset, fout)
 	if err != nil {
 		return nil, err
